@@ -64,6 +64,18 @@ def main():
             na.append({"property_id": pid, "reason": "check not built yet (planned in DESIGN section 4); nothing is claimed until it runs"})
             continue
         text, ref = CLAIMS[pid]
+        # the claim text follows the module's own EXPLANATION (kept next to the rules, so it cannot drift from what is run)
+        try:
+            import importlib, sys
+            sys.path.insert(0, HERE)
+            mod = importlib.import_module(f"msa.props.{pid.lower()}")
+            expl = " ".join(str(getattr(mod, "EXPLANATION", "")).split())
+            rules = sorted(getattr(mod, "RULES", {}))
+            if expl:
+                text = expl[:1400] + (" ..." if len(expl) > 1400 else "") + f" Rule instances: {', '.join(rules)}"
+            ref = ref.split(" and ")[0] + " and 11"
+        except Exception as e:  # noqa
+            pass
         checks.append({
             "property_id": pid,
             "quick_cmd": f"./check {pid} --tier quick",
@@ -71,19 +83,25 @@ def main():
             "evidence_file": f"/verif/evidence/{pid}.json",
             "replay_cmd_template": f"./check {pid} --replay {{path}}",
             "engine": "msa",
-            "technique": "static analysis: repository-specific AST rules (typestate / must-dataflow, pairing, table agreement, "
-                         "order-abstraction of comparison predicates, symbolic index arithmetic) over /repo/mouette, no execution",
+            "technique": "static analysis of /repo/mouette's source (stdlib ast, re-parsed on every run): repository-specific rules over a "
+                         "normalised syntax tree - must-dataflow / typestate, symbolic summaries that follow helper calls, decision tables over "
+                         "truth assignments, order abstraction of comparison predicates, polynomial forms of index arithmetic, and "
+                         "interpretation of small function bodies by the analyser's own interpreter over finite abstract tables (order types, "
+                         "sign classes, enum members, symbolic template meshes). mouette is never imported or executed; no solver, no tests",
             "level_claimed": {
                 "category": "other",
-                "text": "Static rule conformance: every listed structural obligation is discharged at every site of the current source, "
-                        "for all inputs / query orders at once. Decides necessary conditions of the property (" + text + "); it does not "
-                        "prove the behavioural statement. Right level because the property quantifies over run-time values no static "
-                        "argument in reach can bound, while its realistic breakages change exactly these shapes.",
+                "text": "Static rule conformance: every listed obligation is discharged at every site of the current source (exit 0), "
+                        "contradicted by a recognised construct named in the report (exit 1, VIOLATION), or undecided because the code has a "
+                        "shape the rules do not read (exit 2, ANALYSIS-ERROR - neither a pass nor an alarm). Decides necessary conditions of "
+                        "the property: " + text + " It does not prove the behavioural statement. Right level because the property quantifies "
+                        "over run-time values no static argument in reach can bound, while its realistic breakages are visible in these clauses.",
                 "design_ref": "DESIGN.md section " + ref,
             },
-            "level_note": "Trusted: CPython ast; the numpy / CPython semantics the rules encode (in-place augmented assignment on ndarrays, "
-                          "Vec(x) is a view, list + list allocates, heapq invariant); frozen slot tables in msa/props confirmed by reading. "
-                          "A vanished anchor is exit 2 (ANALYSIS-ERROR), never a pass.",
+            "level_note": "Trusted: CPython ast; the numpy / CPython semantics the rules and the analyser's small interpreters encode (in-place "
+                          "augmented assignment on ndarrays, Vec(x) is a view, list + list allocates, heapq invariant, dtype truncation); the "
+                          "loader normal form N1-N4 (msa/normal.py). Validated on every change of the checker against 140+ independent breaking "
+                          "changes, 120 independent behaviour-preserving refactorings and 10 whole-package respellings (DESIGN section 11). "
+                          "A vanished public anchor or an undecided obligation is exit 2 (ANALYSIS-ERROR), never a pass.",
         })
     man = {
         "version": 1,
@@ -96,11 +114,12 @@ def main():
             "add_only": True,
         },
         "engines": [{"name": "msa", "path": "/verif/msa", "serves_properties": [c["property_id"] for c in checks],
-                     "kind_free_text": "mouette static analyser: stdlib-ast loader with star-import resolution, class/MRO model, "
-                                       "structured must-dataflow, order abstraction, polynomial index forms, per-property rule tables"}],
+                     "kind_free_text": "mouette static analyser: stdlib-ast loader with star-import resolution and source normal form, class/MRO "
+                                       "model, structured must-dataflow, symbolic summaries, decision tables, order abstraction, polynomial index "
+                                       "forms, finite-table interpretation, per-property rule tables"}],
         "checks": checks,
         "notes": "All checks are static analysis of /repo/mouette at run time. known_findings.json lists genuine defects recorded rather than "
-                 "repaired and the fix: commits made in /repo. Thorough tier = quick rules + package-wide sweeps + mutation self-test of the checker.",
+                 "repaired and the fix: commits made in /repo. Thorough tier = quick rules + self-test of the checker (designated breaking / benign variants applied in memory, the re-formatted package and ten whole-package respellings).",
         "not_applicable": na,
     }
     with open(os.path.join(HERE, "MANIFEST.json"), "w") as fh:
